@@ -158,7 +158,8 @@ class Norm:
     def opaque(self, e):
         if self.strict:
             raise AnalysisError(f"expression outside the normalisable fragment: {ast.unparse(e)[:120]}")
-        return Poly.atom(("opaque", ast.dump(e)))
+        from .astutil import alpha_canon
+        return Poly.atom(("opaque", ast.dump(alpha_canon(e))))
 
     # ------------------------------------------------------------- leaves
     def n_Constant(self, e):
@@ -466,7 +467,8 @@ class Norm:
         return Poly.atom(("lambda", ast.dump(e)))
 
     def n_ListComp(self, e):
-        return Poly.atom(("comp", ast.dump(e)))
+        from .astutil import alpha_canon
+        return Poly.atom(("comp", ast.dump(alpha_canon(e))))          # a comprehension's variables are its own: called by position
 
     n_GeneratorExp = n_ListComp
     n_SetComp = n_ListComp
